@@ -949,7 +949,7 @@ static int fnc_split (hawk_rtx_t* rtx, const hawk_fnc_info_t* fi, int use_array)
 		{
 			p = byte_str? (hawk_ooch_t*)hawk_rtx_tokbcharsbyrex(rtx, (hawk_bch_t*)str.ptr, org_len, (hawk_bch_t*)p, str.len, fs_rex, (hawk_bcs_t*)&tok):
 			              hawk_rtx_tokoocharsbyrex(rtx, str.ptr, org_len, p, str.len, fs_rex, &tok);
-			if (p && hawk_rtx_geterrnum(rtx) != HAWK_ENOERR) goto oops;
+			if (!p && hawk_rtx_geterrnum(rtx) != HAWK_ENOERR) goto oops;
 		}
 		else if (do_fld)
 		{
